@@ -83,14 +83,30 @@ class _Crash:
             return
         self.n += 1
         emit("mut", n=self.n, op=op, path=ap, fn=_caller(3))
-        if self.crash_at is not None and self.n == self.crash_at:
+        cp = _CFG.get("crash_path")        # alternative addressing: the k-th mutation whose file name contains this text
+        if cp and cp in os.path.basename(ap):
+            self.np = getattr(self, "np", 0) + 1
+        if (self.crash_at is not None and self.n == self.crash_at) or (cp and cp in os.path.basename(ap) and self.np == _CFG.get("crash_path_k", 1)):
+            if _CFG.get("crash_after"):
+                # the mutation is carried out first; the process dies immediately after it (see die_if_pending)
+                self.pending = (op, ap, _caller(3))
+                return
             emit("crash", n=self.n, op=op, path=ap, fn=_caller(3))
-            if _fh:
-                _fh.flush()
-            if self.kill_group:
-                import signal
-                os.killpg(os.getpgid(0), signal.SIGKILL)
-            os._exit(137)
+            self.die()
+
+    def die(self):
+        if _fh:
+            _fh.flush()
+        if self.kill_group:
+            import signal
+            os.killpg(os.getpgid(0), signal.SIGKILL)
+        os._exit(137)
+
+    def die_if_pending(self):
+        pend = getattr(self, "pending", None)
+        if pend:
+            emit("crash", n=self.n, op=pend[0], path=pend[1], fn=pend[2], after=True)
+            self.die()
 
 
 def _install_crash():
@@ -106,6 +122,9 @@ def _install_crash():
     def open_(file, mode="r", *a, **kw):
         if isinstance(mode, str) and is_write(mode) and not isinstance(file, int):
             c.hit("open:" + mode.replace("t", ""), file)
+            r = real_open(file, mode, *a, **kw)
+            c.die_if_pending()
+            return r
         return real_open(file, mode, *a, **kw)
 
     @functools.wraps(real_gzip_open)
@@ -116,14 +135,18 @@ def _install_crash():
         saved = builtins.open
         builtins.open = real_open
         try:
-            return real_gzip_open(filename, mode, *a, **kw)
+            r = real_gzip_open(filename, mode, *a, **kw)
         finally:
             builtins.open = saved
+        c.die_if_pending()
+        return r
 
     @functools.wraps(real_remove)
     def remove(path, *a, **kw):
         c.hit("remove", path)
-        return real_remove(path, *a, **kw)
+        r = real_remove(path, *a, **kw)
+        c.die_if_pending()
+        return r
 
     builtins.open = open_
     gzip.open = gzip_open
